@@ -299,7 +299,7 @@ def pushInt64 (n : Int) : Bytes :=
 def evalToken (v : Bytes) : Option Bytes :=
   if v.isEmpty then some []
   else
-    let n := cAtoi 32 v
+    let n := cAtoi 64 v          -- `atoll` / `%lld` (64 bits, as in the Value constructor)
     if n != 0 && intDecimal n == v then some (pushInt64 n)
     else
       match (if v.length % 2 == 0 then tryHex v else none) with
